@@ -71,8 +71,26 @@ func RewriteClause(decls map[ast.PredicateSym]*ast.Decl, clause ast.Clause) ast.
 			}
 			boundVars = boundVars.Extend(defVars)
 		case ast.Eq:
+			// An equality gives a variable a value only if its other side has one:
+			// X = Y with both sides unbound (or X = X) binds nothing yet.
 			m := boundVars.AsMap()
-			ast.AddVars(p, m)
+			hasValue := func(t ast.BaseTerm) bool {
+				vars := make(map[ast.Variable]bool)
+				ast.AddVars(t, vars)
+				for v := range vars {
+					if !m[v] {
+						return false
+					}
+				}
+				return true
+			}
+			leftHasValue, rightHasValue := hasValue(p.Left), hasValue(p.Right)
+			if rightHasValue {
+				ast.AddVars(p.Left, m)
+			}
+			if leftHasValue {
+				ast.AddVars(p.Right, m)
+			}
 			boundVars = NewVarList(m)
 
 		case ast.NegAtom:
